@@ -30,25 +30,11 @@ theorem getD_lt' {α} (l : List α) (i : Nat) (d : α) (h : i < l.length) : l.ge
 theorem getD_ge' {α} (l : List α) (i : Nat) (d : α) (h : ¬ i < l.length) : l.getD i d = d := by
   simp [List.getD_eq_getElem?_getD, Nat.not_lt.mp h]
 
-theorem paramsOKb_sound (d0 : Defs) (h : paramsOKb d0 = true) : ParamsOK d0 := by
-  intro rdi ri i
-  unfold paramsOKb at h
-  have h1 := all_getD d0.ruledefs (fun rd => rd.rules.all fun r => r.params.all fun prm => !isAsmBuiltinName prm.1) (by rfl) h rdi
-  try simp only at h1
-  have h2 := all_getD (d0.ruledefs.getD rdi default).rules (fun r => r.params.all fun prm => !isAsmBuiltinName prm.1) (by rfl) h1 ri
-  try simp only at h2
-  unfold ruleOf
-  by_cases hi : i < ((d0.ruledefs.getD rdi default).rules.getD ri default).params.length
-  · rw [getD_lt' _ i _ hi]
-    have := List.all_eq_true.mp h2 _ (List.getElem_mem hi)
-    simpa using this
-  · rw [getD_ge' _ i _ hi]; decide
-
 theorem frontOKb_sound (st : Static) (nodes : List AstNode) (d0 : Defs) (ho : st.opts.optStatic = true)
     (h : frontOKb st nodes d0 = true) : FrontOK st nodes d0 := by
   unfold frontOKb at h
   simp only [Bool.and_eq_true] at h
-  obtain ⟨⟨⟨⟨h1, h2⟩, h3⟩, h4⟩, h5⟩ := h
+  obtain ⟨⟨⟨h1, h2⟩, h3⟩, h4⟩ := h
   have pos : ∀ pre n post, nodes = pre ++ n :: post →
       (match n with
       | .instr _ (some ref) =>
@@ -69,7 +55,7 @@ theorem frontOKb_sound (st : Static) (nodes : List AstNode) (d0 : Defs) (ho : st
     have := List.all_eq_true.mp h3 _ hm
     simp only [ht] at this
     exact this
-  refine ⟨fun ref => ?_, fun ref => ?_, ?_, ?_, ?_, ?_, ?_, ?_, paramsOKb_sound d0 h5⟩
+  refine ⟨fun ref => ?_, fun ref => ?_, ?_, ?_, ?_, ?_, ?_, ?_⟩
   · have := all_getD d0.instrs (fun i => !i.resolved) (by rfl) h1 ref
     simpa using this
   · have := all_getD d0.datas (fun x => !x.resolved) (by rfl) h2 ref
